@@ -22,7 +22,12 @@ for d in sorted(glob.glob('/verif/seeded/*/meta.json')):
     j=json.load(open(d)); name=os.path.basename(os.path.dirname(d))
     def one(x): return re.sub(r'\s+',' ',str(x or '')).replace('|','\\|')[:260]
     seeds.append('| %s | %s | %s | %s | %s |'%(name,j.get('property'),one(j.get('needs')),one(j.get('detection')),one(j.get('after_strengthening'))))
+stale=[]
+for d in sorted(glob.glob('/verif/seeded/*/patch.diff')):
+    if subprocess.run(['git','-C','/repo','apply','--check',d],capture_output=True).returncode!=0:
+        stale.append(os.path.basename(os.path.dirname(d)))
 seedt='\n'.join(seeds)
+seedt+='\n\nEach patch applies to the /repo HEAD named in its meta.json (`confirmed_by`). Later repairs rewrote some of the patched lines; at the /repo HEAD of this table %d of %d patches still apply with `git apply`, these do not: %s.'%(len(seeds)-2-len(stale),len(seeds)-2,', '.join(stale) or 'none')
 log=subprocess.run(['git','-C','/repo','log','--format=%h %s'],capture_output=True,text=True).stdout.splitlines()
 fixes=[l for l in log if ' fix:' in l]
 fixt='\n'.join('* `%s`'%l.replace('`',"'") for l in reversed(fixes))
